@@ -160,7 +160,7 @@ def verify_function(qual, prop, program=None, reg=None, self_cls=None, tag=None,
         if not getattr(c, "never_returns", False):
             cov = _obl(E, "%s.%s.cover.exit" % (prop, fname), "cover", "normal exit reachable")
             cov.expect = "sat"
-            for pc in reach_exit[:6]:
+            for pc in _easiest(reach_exit, 6):
                 cov.add(pc, z3.BoolVal(False))
             if not reach_exit:
                 cov.add((z3.BoolVal(False),), z3.BoolVal(False))
@@ -175,6 +175,30 @@ def verify_function(qual, prop, program=None, reg=None, self_cls=None, tag=None,
     rep.paths = E.paths
     rep.engine = E
     return rep
+
+
+def _easiest(pcs, n):
+    """the exit states whose path conditions a solver is most likely to find a model for: few quantified conjuncts,
+    then short (any satisfiable exit shows that the normal exit is reachable)"""
+    if len(pcs) <= n:
+        return list(pcs)
+    step = max(1, len(pcs) // 40)
+    sample = pcs[::step][:40]
+
+    def nquant(pc):
+        k = 0
+        for c in pc:
+            todo = [c]
+            seen = 0
+            while todo and seen < 400:
+                x = todo.pop()
+                seen += 1
+                if z3.is_quantifier(x):
+                    k += 1
+                    break
+                todo.extend(x.children())
+        return k
+    return sorted(sample, key=lambda pc: (nquant(pc), len(pc)))[:n]
 
 
 def _excl(E, name, g, entry, env, fr):
